@@ -110,7 +110,8 @@ def check_normalisation(idx: Index, res: Result) -> None:
         out = dict(zip(names, call.args))
         out.update({k.arg: k.value for k in call.keywords if k.arg})
         return out
-    ta = norm_args(ncall)
+    from ..util import deref
+    ta = {k_: deref(tr.node, v_) for k_, v_ in norm_args(ncall).items()}       # a parameter computed into a local first
     ok = nf(ta["x"]) == nf("%s + %s" % (var, ps[2])) and src(ta.get("base")) == ps[2] and src(ta.get("offset")) == ps[0] \
         and nf(ta.get("precision")) in (nf("max(scale(%s), scale(%s))" % (ps[0], ps[2])), nf("max(scale(%s), scale(%s))" % (ps[2], ps[0])))
     res.check("NORM", "timerange normalises i+dt to (base=dt, offset=start, precision=max(scale(start), scale(dt)))", ok, tr.loc(ncall),
@@ -153,12 +154,14 @@ def check_normalisation(idx: Index, res: Result) -> None:
         raise AnalysisError("Model.memoize: key variable not found")
     K = K[0]
     uses = 0
+    from ..util import is_row, row_aliases
+    rows = row_aliases(memo.node, "self.memo")
     for n in walk_no_nested(memo.node):
-        if isinstance(n, ast.Subscript) and isinstance(n.value, ast.Name) and n.value.id == "mymemo":
+        if isinstance(n, ast.Subscript) and is_row(rows, n.value, "self.memo"):
             uses += 1
             res.check("KEY", "memo subscript %s keyed by the normalised time" % src(n), src(n.slice) == K, memo.loc(n), memo.qual, src(n),
                       "the memo is indexed with %s instead of the normalised %s" % (src(n.slice), K), key="KEY/memoize/%s" % src(n.slice))
-        if isinstance(n, ast.Compare) and isinstance(n.ops[0], ast.In) and "mymemo" in src(n.comparators[0]):
+        if isinstance(n, ast.Compare) and isinstance(n.ops[0], (ast.In, ast.NotIn)) and is_row(rows, n.comparators[0], "self.memo"):
             uses += 1
             res.check("KEY", "memo probe keyed by the normalised time", src(n.left) == K, memo.loc(n), memo.qual, src(n),
                       "the memo is probed with %s" % src(n.left), key="KEY/memoize/probe")
@@ -197,6 +200,13 @@ def check_c05(idx: Index, tier: str, res: Result) -> None:
                         (_time_like(n.left) and _dt_like(n.right)) or (_dt_like(n.left) and _time_like(n.right))):
                     nadv += 1
                     kind, cons = _classify(n, par)
+                    if kind == "assign" and isinstance(cons.targets[0], ast.Name):
+                        # a named intermediate: classify what the local flows into (worst use wins)
+                        uses = [u for u in walk_no_nested(fi.node) if isinstance(u, ast.Name) and u.id == cons.targets[0].id and isinstance(u.ctx, ast.Load)]
+                        kinds = [_classify(u, par) for u in uses]
+                        bad = [kc for kc in kinds if kc[0] not in ("normalized", "log")]
+                        if kinds:
+                            kind, cons = bad[0] if bad else kinds[0]
                     label = "%s: %s" % (fi.qual, src(n))
                     if kind == "normalized":
                         res.ob("RAW", label + " -> normalize()", True)
@@ -250,14 +260,8 @@ def check_c05(idx: Index, tier: str, res: Result) -> None:
     check_normalisation(idx, res)
 
     # ---- the batch sweep and the step: tables keyed by the range variable -----------------------------------------------------
-    sim = idx.try_func(SDSIM, "SdSimulation.__simulate")
-    if sim is None:
-        raise AnalysisError("anchor vanished: SdSimulation.__simulate")
-    sl = [n for n in walk_no_nested(sim.node) if isinstance(n, ast.For) and isinstance(n.iter, ast.Call) and call_name(n.iter) == "timerange"]
-    if len(sl) != 1:
-        raise AnalysisError("__simulate: sweep not found")
-    v = sl[0].target.id
-    st = [n for n in ast.walk(sl[0]) if isinstance(n, ast.Assign) and isinstance(n.targets[0], ast.Subscript) and src(n.targets[0].value) == "dic_t"]
+    from .sddsl_templates import sweep_loop
+    sim, _lp, _rng, v, st = sweep_loop(idx)
     res.check("KEY", "result rows keyed by the range variable", len(st) == 1 and src(st[0].targets[0].slice) == v, sim.loc(), sim.qual,
               norm_stmt(st[0]) if st else "", "result rows are keyed by %s" % (src(st[0].targets[0].slice) if st else "?"), key="KEY/__simulate/rows")
     rs = idx.func(BPTK, "bptk.run_step")
